@@ -203,7 +203,11 @@ def atan2(*, y, x, out=None):
         raise DTypeError(f'atan2: dtypes differ: {y.dtype} vs {x.dtype}')
     V._need_float(y, 'atan2')
     dims, shape = V._merge_dims(y, x)
-    res = V._apply2(lambda a, b: C.rfn('atan2', a, b), V._expand(y, dims), V._expand(x, dims))
+    def _at(a, b):
+        sg = a.t.sign() if getattr(a, 'special', None) is None and hasattr(a, 't') else None
+        return C.rfn('atan2', a, b, sign='0+' if sg in ('+', '0+', '0') else None)
+
+    res = V._apply2(_at, V._expand(y, dims), V._expand(x, dims))
     res = np.broadcast_to(res, shape).copy()
     r = Variable(_arr=res, dims=dims, unit=parse_unit('rad'), dtype=y.dtype,
                  _rnd=V._rnd_add((y._rnd[0] + x._rnd[0], y._rnd[1] + x._rnd[1]), y.dtype))
